@@ -21,7 +21,7 @@ SCOPES: list[tuple[str, list[str]]] = [
     ('lab.Lab.cached_tasks', ['C08', 'C09']),
     ('lab.Lab.uncache_tasks', ['C08']),
     ('lab.Lab.', ['C01', 'C08']),
-    ('runners.process.ProcessExecutor.', ['C04', 'C05', 'C10', 'C11', 'C14']),
+    ('runners.process.ProcessExecutor.', ['C01', 'C03', 'C04', 'C05', 'C10', 'C11', 'C14']),
     ('runners.process.ProcessRunner._subprocess_func', ['C16', 'C02', 'C19', 'C13']),
     ('runners.process.ProcessRunner.remove_results', ['C17']),
     ('runners.serial.SerialRunner.remove_results', ['C17']),
@@ -548,3 +548,199 @@ def no_jump_in_finally(ctx: Ctx):
                 yield ctx.ob('SWEEP.NO-JUMP-IN-FINALLY', False, fn, j, f'`{src(j)[:30]}` does not leave a finally block',
                              f'`{src(j)[:40]}` inside `finally` swallows any exception raised in the try body: the failure is reported as a normal completion')
     yield ctx.ob('SWEEP.NO-JUMP-IN-FINALLY', True, None, None, f'finally blocks scanned, {n} jumps', construct='scan', path='labtech/')
+
+
+_ALL_SCOPED = sorted({q for _p, ps in SCOPES for q in ps})
+IMMEDIATE_CONSUMERS = {'sorted', 'min', 'max', 'sum', 'any', 'all', 'next', 'list', 'tuple', 'set', 'dict', 'frozenset', 'OrderedSet'}
+
+
+def _free_names(f: ast.AST) -> set[str]:
+    """Names a lambda / nested def reads that are neither its parameters nor assigned inside it."""
+    args = f.args
+    bound = {a.arg for a in args.posonlyargs + args.args + args.kwonlyargs}
+    if args.vararg:
+        bound.add(args.vararg.arg)
+    if args.kwarg:
+        bound.add(args.kwarg.arg)
+    body = f.body if isinstance(f.body, list) else [f.body]
+    for st in body:
+        for x in ast.walk(st):
+            if isinstance(x, ast.Name) and isinstance(x.ctx, ast.Store):
+                bound.add(x.id)
+            elif isinstance(x, ast.comprehension):
+                bound.update(target_names(x.target))
+    out = set()
+    for st in body:
+        for x in ast.walk(st):
+            if isinstance(x, ast.Name) and isinstance(x.ctx, ast.Load) and x.id not in bound:
+                out.add(x.id)
+    return out
+
+
+@rule('SWEEP.LOOP-CLOSURE-BINDING', _ALL_SCOPED)
+def loop_closure_binding(ctx: Ctx):
+    """A lambda / nested function created inside a `for` loop that outlives the iteration (stored, appended, passed to
+    something that keeps it - a thunk handed to an executor, a callback) does not read the loop variable or a per-iteration
+    local by name: closures bind late, so every such function would see the values of the *last* iteration."""
+    n = 0
+    for fn in ctx.P.all_functions():
+        if ctx.pid is not None and ctx.pid not in scope_of(fn):
+            continue
+        for loop in [x for x in walk_local_nodes(fn.node) if isinstance(x, (ast.For, ast.AsyncFor))]:
+            per_iter = set(target_names(loop.target)) | _stores(loop.body)
+            parents = {}
+            for x in ast.walk(loop):
+                for ch in ast.iter_child_nodes(x):
+                    parents[id(ch)] = x
+            for f in [x for st in loop.body for x in ast.walk(st) if isinstance(x, (ast.Lambda, ast.FunctionDef))]:
+                captured = _free_names(f) & per_iter
+                if isinstance(f, ast.FunctionDef):
+                    captured.discard(f.name)
+                if not captured:
+                    continue
+                # consumed on the spot?  sorted(xs, key=lambda ...), any(f(x) for ...), next(...)
+                par = parents.get(id(f))
+                if isinstance(par, ast.keyword):
+                    par = parents.get(id(par))
+                if isinstance(f, ast.Lambda) and isinstance(par, ast.Call) and (dotted_name(par.func) or '').split('.')[-1] in IMMEDIATE_CONSUMERS:
+                    continue
+                if isinstance(f, ast.FunctionDef):
+                    # a local helper that is only *called* inside the same iteration is fine
+                    uses = [x for st in loop.body for x in ast.walk(st) if isinstance(x, ast.Name) and x.id == f.name and isinstance(x.ctx, ast.Load)]
+                    if uses and all(isinstance(parents.get(id(u)), ast.Call) and parents[id(u)].func is u for u in uses):
+                        continue
+                n += 1
+                yield ctx.ob('SWEEP.LOOP-CLOSURE-BINDING', False, fn, f, f'closure created per `{src(loop.target)}` binds its values now',
+                             f'the function created in the loop reads {sorted(captured)} by name after the iteration that created it: all such '
+                             "functions see the last iteration's values (bind with functools.partial or a default argument)",
+                             construct=f'closure@{src(loop.target)}:{",".join(sorted(captured))}')
+    yield ctx.ob('SWEEP.LOOP-CLOSURE-BINDING', True, None, None, f'closures in loops scanned, {n} late bindings', construct='scan', path='labtech/')
+
+
+def walk_local_nodes(node: ast.AST):
+    """ast.walk that does not descend into nested function definitions (the node itself excepted)."""
+    todo = list(ast.iter_child_nodes(node))
+    while todo:
+        x = todo.pop()
+        yield x
+        if isinstance(x, (ast.FunctionDef, ast.AsyncFunctionDef, ast.Lambda, ast.ClassDef)):
+            continue
+        todo.extend(ast.iter_child_nodes(x))
+
+
+ONE_SHOT_MAKERS = {'map', 'filter', 'zip', 'iter', 'reversed', 'enumerate'}
+
+
+@rule('SWEEP.ITERATOR-REUSE', _ALL_SCOPED)
+def iterator_reuse(ctx: Ctx):
+    """A local bound to a one-shot iterator (generator expression, map / filter / zip / iter / reversed / enumerate object, the
+    result of a generator function of the package) is consumed at most once: the second consumer silently sees it empty."""
+    n = 0
+    gens = {f.qualname for f in ctx.P.all_functions() if any(isinstance(x, (ast.Yield, ast.YieldFrom)) for x in walk_local_nodes(f.node))}
+    for fn in ctx.P.all_functions():
+        if ctx.pid is not None and ctx.pid not in scope_of(fn):
+            continue
+        for st in walk_local_nodes(fn.node):
+            if not (isinstance(st, ast.Assign) and len(st.targets) == 1 and isinstance(st.targets[0], ast.Name)):
+                continue
+            v = st.value
+            one_shot = isinstance(v, ast.GeneratorExp) or \
+                (isinstance(v, ast.Call) and isinstance(v.func, ast.Name) and v.func.id in ONE_SHOT_MAKERS) or \
+                (isinstance(v, ast.Call) and any(q in gens for q in ctx.P.resolve_call(v, fn, by_name=False)))
+            if not one_shot:
+                continue
+            name = st.targets[0].id
+            stores = [x for x in walk_local_nodes(fn.node) if isinstance(x, ast.Name) and x.id == name and isinstance(x.ctx, ast.Store)]
+            if len(stores) != 1:
+                continue
+            loads = [x for x in walk_local_nodes(fn.node) if isinstance(x, ast.Name) and x.id == name and isinstance(x.ctx, ast.Load)]
+            # `next(it)` / `next(it, d)` pulls one element and is meant to be repeated
+            parents = {}
+            for x in ast.walk(fn.node):
+                for ch in ast.iter_child_nodes(x):
+                    parents[id(ch)] = x
+            consumers = [x for x in loads if not (isinstance(parents.get(id(x)), ast.Call) and (dotted_name(parents[id(x)].func) or '') == 'next')]
+            in_loop = any(isinstance(p, (ast.For, ast.While)) and any(c is l for c in ast.walk(p) for l in consumers[:1]) and not any(s is st for s in ast.walk(p))
+                          for p in walk_local_nodes(fn.node))
+            if len(consumers) >= 2 or (len(consumers) == 1 and in_loop):
+                n += 1
+                yield ctx.ob('SWEEP.ITERATOR-REUSE', False, fn, consumers[-1], f'one-shot iterator `{name}` consumed once',
+                             f'`{name}` is a one-shot iterator (`{src(v)[:40]}`) but is consumed more than once (or inside a loop it was created outside of): '
+                             'every consumer after the first sees it exhausted', construct=f'{name}')
+    yield ctx.ob('SWEEP.ITERATOR-REUSE', True, None, None, f'one-shot iterators scanned, {n} reused', construct='scan', path='labtech/')
+
+
+@rule('SWEEP.COMPARISON-TRAPS', _ALL_SCOPED)
+def comparison_traps(ctx: Ctx):
+    """`except A or B` (catches only A), identity comparison with a str / number / tuple literal (`x is 'w'`, implementation
+    defined), and `x == None`-free: these read like the intended test and are not."""
+    n = 0
+    for fn in ctx.P.all_functions():
+        if ctx.pid is not None and ctx.pid not in scope_of(fn):
+            continue
+        for x in walk_local_nodes(fn.node):
+            if isinstance(x, ast.ExceptHandler) and isinstance(x.type, ast.BoolOp):
+                n += 1
+                yield ctx.ob('SWEEP.COMPARISON-TRAPS', False, fn, x.type, 'except clause names a class or a tuple of classes',
+                             f'`except {src(x.type)}` evaluates the boolean expression first and catches only its value (the first class): '
+                             'the other exception types escape the handler')
+            elif isinstance(x, ast.Compare):
+                operands = [x.left] + list(x.comparators)
+                for op, a, b in zip(x.ops, operands, operands[1:]):
+                    if isinstance(op, (ast.In, ast.NotIn)):
+                        # membership in what is (or names) a string literal: a substring test - `('_is_task' '__class__')`
+                        # is one string, not a pair
+                        rb = b
+                        if isinstance(rb, ast.Name) and rb.id in fn.module.consts and not ctx.P._is_local_name(rb.id, fn):
+                            rb = fn.module.consts[rb.id]
+                        if isinstance(rb, ast.Constant) and isinstance(rb.value, str) and len(rb.value) > 1 \
+                                and not (isinstance(a, ast.Constant) and isinstance(a.value, str)):
+                            n += 1
+                            yield ctx.ob('SWEEP.COMPARISON-TRAPS', False, fn, x, 'membership test against a collection, not a string',
+                                         f'`{src(x)[:60]}` tests membership in the string {rb.value!r}: that is a substring test (a tuple that lost '
+                                         'its comma, adjacent literals that were concatenated), so unrelated values match')
+                    if isinstance(op, (ast.Is, ast.IsNot)):
+                        for side in (a, b):
+                            if (isinstance(side, ast.Constant) and side.value is not None and not isinstance(side.value, bool)
+                                    and side.value is not Ellipsis) or isinstance(side, (ast.Tuple, ast.List, ast.Dict, ast.Set, ast.JoinedStr)):
+                                n += 1
+                                yield ctx.ob('SWEEP.COMPARISON-TRAPS', False, fn, x, 'identity test only against singletons',
+                                             f'`{src(x)[:60]}` compares identity with a literal: whether equal values are the same object is an '
+                                             'implementation detail (interning, pickling, another process)')
+    yield ctx.ob('SWEEP.COMPARISON-TRAPS', True, None, None, f'comparisons and except clauses scanned, {n} traps', construct='scan', path='labtech/')
+
+
+@rule('SWEEP.PARAM-NOT-REBOUND-BY-LOOP', _ALL_SCOPED)
+def param_not_rebound_by_loop(ctx: Ctx):
+    """A `for` / `with … as` / `except … as` target does not reuse the name of a parameter that is read again afterwards:
+    after the statement the name no longer holds the argument."""
+    n = 0
+    for fn in ctx.P.all_functions():
+        if ctx.pid is not None and ctx.pid not in scope_of(fn):
+            continue
+        params = {a.arg for a in fn.node.args.posonlyargs + fn.node.args.args + fn.node.args.kwonlyargs}
+        if not params:
+            continue
+        g = None
+        for x in walk_local_nodes(fn.node):
+            tg = None
+            if isinstance(x, (ast.For, ast.AsyncFor)):
+                tg = set(target_names(x.target))
+            if not tg or not (tg & params):
+                continue
+            g = g or ctx.cfg(fn)
+            try:
+                header = [i for i in g.nodes_of(x) if g.node(i).kind == 'for'][0]
+            except IndexError:
+                continue
+            body = g.loop_body_nodes(header)
+            after = g.reachable([t for (t, lab) in g.succ.get(header, []) if lab not in ('loop', 'true', 'exc')], exc=False) - body - {header}
+            for name in sorted(tg & params):
+                redefs = {i for i in after if name in node_defs(g, i)}
+                reads = [i for i in after if name in _node_reads(g, i) and i not in redefs]
+                if reads:
+                    n += 1
+                    yield ctx.ob('SWEEP.PARAM-NOT-REBOUND-BY-LOOP', False, fn, x, f'loop target `{name}` does not shadow the parameter `{name}`',
+                                 f'the loop re-binds the parameter `{name}`; the read at line {getattr(g.node(reads[0]).ast, "lineno", "?")} after the loop '
+                                 'sees the last element (or the argument, if the loop did not run), not the argument')
+    yield ctx.ob('SWEEP.PARAM-NOT-REBOUND-BY-LOOP', True, None, None, f'loops scanned, {n} parameters shadowed', construct='scan', path='labtech/')
